@@ -81,6 +81,20 @@ Theorem C01_mszip_member_is_ideal_decode : forall file par cab, 0 < p_bufsize pa
 Proof. exact mszip_extract. Qed.
 Print Assumptions C01_mszip_member_is_ideal_decode.
 
+(* the same for Quantum folders (every block followed by the trailer byte the block reader adds) *)
+Theorem C01_quantum_member_is_ideal_decode : forall file par cab, 0 < p_bufsize par -> forall fo f pre bs post q1 i1 q2 i2,
+  nth_error (c_folders cab) (N.to_nat (fi_folder f)) = Some fo -> ctype (fo_comp fo) = cffoldCOMPTYPE_QUANTUM ->
+  10 <= N.land (N.shiftr (fo_comp fo) 8) 31 -> N.land (N.shiftr (fo_comp fo) 8) 31 <= 21 -> prechecks par fo f = true ->
+  file = pre ++ encs bs ++ post -> fo_offset fo = Z.of_N (Chm.len pre) -> N.of_nat (length bs) = fo_nblocks fo -> Forall (wf_blk (c_bres cab)) bs ->
+  fi_len f <> 0 ->
+  let q0 := Qtm.qtm_init (N.land (N.shiftr (fo_comp fo) 8) 31) in
+  (if fi_off f =? 0 then (SVal (inr (tt, q0)), {| irest := pays (fo_comp fo) bs ++ pad EofPad2; iout := [] |})
+   else ideal EofPad2 0 (Qtm.decompress (fi_off f) q0) {| irest := pays (fo_comp fo) bs ++ pad EofPad2; iout := [] |}) = (SVal (inr (tt, q1)), i1) ->
+  ideal EofPad2 0 (Qtm.decompress (fi_len f) q1) {| irest := irest i1; iout := [] |} = (SVal (inr (tt, q2)), i2) ->
+  exists st', extract file par cab cs_init f = (MSPACK_ERR_OK, rev (iout i2), st').
+Proof. exact qtm_extract. Qed.
+Print Assumptions C01_quantum_member_is_ideal_decode.
+
 (* open(): a cabinet without reserve areas and neighbours lists exactly the folders and files its writer encoded - any number of
    folders and files, any sizes / offsets / attributes / dates, names of 1..255 bytes without NUL, folder indices valid or one of
    the three CONTINUED codes (which mark the first / last folder for merging) - in strict and in salvage mode *)
